@@ -321,7 +321,7 @@ def classify_cli(tr, cmeta, ts):
     kinds = set()
     for m in cmeta:
         kinds.update(py_variant_problems(tr, m, ts))
-    for k in ("allele-not-in-parent", "transmission-mismatch", "conflict-or-missing-phased", "forced-unphased"):
+    for k in ("conflict-or-missing-phased", "allele-not-in-parent", "transmission-mismatch", "forced-unphased"):
         if k in kinds:
             return "phase-ped:" + k
     return "phase-ped:other"
